@@ -186,7 +186,7 @@ def gen_tables(tier, part, of):
         if i % of == part:
             yield {'lrtype': 34, 'name': b'FILM', 'cols': COLS[:3], 'rows': rows}
     if tier == 'thorough':
-        reduced = [b'', b'ALLO', 300, -129, 1.5, 2 ** 31 - 1, [7, b'IN  ']]
+        reduced = [b'', b'ALLO', 300, -129, 1.5, 2 ** 31 - 1, [7, b'IN  '], 0, b'thirteen char']
         for combo in itertools.product(reduced, repeat=6):
             rows = [[b'ROW1', combo[0], combo[1]], [b'R2  ', combo[2], combo[3]], [b'R3  ', combo[4], combo[5]]]
             i += 1
